@@ -22,6 +22,8 @@
     release <ip> <typ> <ns> <app> <pod> <pool> <fault> <pfault>
     reload <pools> <fault>
     restart
+    crash <k> <j> <move line>                        (the move runs, the process dies after k apiserver calls and j provider
+                                                     requests of it, a new process starts: `crashAt`)
     dump
     noguard on|off          (test switch: run the following moves WITHOUT the unbind UID guard, for replays of D2)
 
@@ -198,6 +200,10 @@ def stepLine (d : DS) (line : String) : DS × String :=
   | ["dump"] => (d, dump d.s)
   | ["noguard", "on"] => ({ d with F := { d.F with unbindChecksUID := false } }, "ok")
   | ["noguard", "off"] => ({ d with F := facts }, "ok")
+  | "crash" :: k :: j :: rest =>
+    match k.toNat?, j.toNat?, parseMove rest with
+    | some kk, some jj, some (_, m) => ({ d with s := crashAt d.F kk jj d.s m }, "ok")
+    | _, _, _ => (d, "bad-op")
   | _ =>
     match parseMove w with
     | none => (d, "bad-op")
